@@ -15,9 +15,11 @@ Definition py (p : pt) : Z := snd p.
 
 Definition pt_eqb (a b : pt) : bool := (px a =? px b) && (py a =? py b).
 
-(* internal_clipper.go:triSign *)
+(* internal_clipper.go:triSign — faithful: the code tests x > 1, so triSign 1 = 0
+   (a genuine defect recorded in KNOWN_FINDINGS.txt; repairing it breaks the
+   pinned expectation of TestOffsetVariableCallback4, so it is not repaired) *)
 Definition triSign (x : Z) : Z :=
-  if x <? 0 then -1 else if x >? 0 then 1 else 0.
+  if x <? 0 then -1 else if x >? 1 then 1 else 0.
 
 (* internal_clipper.go:multiplyUInt64 — all intermediate values are uint64 *)
 Definition mask32 : Z := 4294967295.
